@@ -495,7 +495,7 @@ def run_check(pid, tier, seed, replay=None):
     searched = 0
     if violations:
         c = violations[0]
-        d = shrink_desc(mod, c.desc, lambda x: (lambda cc: cc.oracle is not None and classify(cc.desc, cc.oracle, known) is None)(safe_evaluate(mod, x)))
+        d = shrink_desc(mod, c.desc, lambda x: (lambda cc: cc.oracle is not None and not cc.oracle.startswith(CORR_PREFIXES) and classify(cc.desc, cc.oracle, known) is None)(safe_evaluate(mod, x)))
         cc = safe_evaluate(mod, d)
         replay_path = write_replay(pid, seed, "oracle", {"case": d, "failure": cc.oracle or c.oracle})
         vline = "VIOLATION property=%s replay=%s" % (pid, replay_path)
@@ -515,7 +515,7 @@ def run_check(pid, tier, seed, replay=None):
                 found = c
                 break
         if found is not None:
-            d = shrink_desc(mod, found.desc, lambda x: (lambda cc: cc.oracle is not None and classify(cc.desc, cc.oracle, known) is None)(safe_evaluate(mod, x)))
+            d = shrink_desc(mod, found.desc, lambda x: (lambda cc: cc.oracle is not None and not cc.oracle.startswith(CORR_PREFIXES) and classify(cc.desc, cc.oracle, known) is None)(safe_evaluate(mod, x)))
             cc = safe_evaluate(mod, d)
             replay_path = write_replay(pid, seed, "oracle", {"case": d, "failure": cc.oracle or found.oracle})
             vline = "VIOLATION property=%s replay=%s" % (pid, replay_path)
